@@ -55,6 +55,9 @@ type ATEpisode struct {
 	// RetryOnce: the application runs a failed autocommit statement once more
 	// on the same handle before it gives up (retry after a lock conflict)
 	RetryOnce bool `json:"retry_once,omitempty"`
+	// AppContinues (C17): the application notes a failed autocommit statement,
+	// carries on with the following ones and lets the global transaction commit
+	AppContinues bool `json:"app_continues,omitempty"`
 	// Fault describes the single injected fault of a C02 episode (informational + oracle)
 	Fault string `json:"fault,omitempty"`
 }
